@@ -431,7 +431,18 @@ func JPEG(t *rapid.T, o Opts) (File, JPEGLayout) {
 	if rapid.IntRange(0, 2).Draw(t, "tailfill") == 0 {
 		fill(3)
 	}
-	j := build.JPEG{Segs: segs, SOS: append([]byte{byte(ncomp)}, make([]byte, 2*ncomp+3)...), Entropy: []byte{0x12, 0xFF, 0x34, 0x00, 0x56}}
+	// a fifth of the files have 0xFF fill bytes before some of their markers (T.81 B.1.1.2)
+	sosFill := 0
+	if rapid.IntRange(0, 4).Draw(t, "fillbytes") == 0 {
+		for i := range segs {
+			if rapid.IntRange(0, 2).Draw(t, "fillhere") == 0 {
+				segs[i].Fill = rapid.SampledFrom([]int{1, 1, 2, 3, 7, 100}).Draw(t, "nfillbytes")
+			}
+		}
+		sosFill = rapid.SampledFrom([]int{0, 1, 5}).Draw(t, "sosfill")
+		f.Notes = append(f.Notes, "fill bytes before some markers")
+	}
+	j := build.JPEG{Segs: segs, SOSFill: sosFill, SOS: append([]byte{byte(ncomp)}, make([]byte, 2*ncomp+3)...), Entropy: []byte{0x12, 0xFF, 0x34, 0x00, 0x56}}
 	f.Data, f.Map = j.Bytes()
 	sofEnd, lastICC := f.Map.Marks["sofEnd"], f.Map.Marks["lastICCEnd"]
 	if f.HasICC {
